@@ -35,6 +35,9 @@ def build_write_reply(ids, statuses, shape, malformed, dup):
     entries = [{"aid": a, "iid": i, "status": s} for (a, i), s in zip(ids, statuses)]
     if shape == "204":
         return 204, b""
+    if shape.startswith("http-"):
+        # the accessory (or a proxy in front of it) refuses the whole request with an HTTP error status and no body at all
+        return int(shape.split("-")[1]), b""
     if shape.startswith("global"):
         # request-wide error: {"status": g} with no list at all / with a list mentioning only the first id
         g = next((s for s in statuses if s != 0), -70407)
@@ -85,14 +88,18 @@ def case_ip_write(p):
         for statuses, shape, malformed, dup in p["replies"]:
             if shape == "204" and any(statuses):
                 continue
-            if shape.startswith("global"):
+            if shape.startswith("http-"):
+                if any(statuses):
+                    continue
+                eff = [-70402] * len(ids)  # nothing was accepted: failing the call, or a non-zero status per id, are both fine; "written" is not
+            elif shape.startswith("global"):
                 if not any(statuses):
                     continue
                 g = next(s for s in statuses if s != 0)
                 # no list at all: the request-wide error rejects everything.  partial list: only the mentioned id is judged, the ids a reply
                 # does not mention are don't-care (DESIGN section 7)
                 eff = [g] * len(ids) if shape == "global-no-list" else [statuses[0] if statuses[0] != 0 else None] + [None] * (len(ids) - 1)
-            else:
+            elif not shape.startswith("http-"):
                 eff = list(statuses)
             n += 1
             reply["code"], reply["body"] = build_write_reply(ids, statuses, shape, malformed, dup)
@@ -123,7 +130,7 @@ def case_ip_write(p):
                 if s != 0:
                     if r is None or r.get("status") in (0, None):
                         out.append(("ip:rejected-write-not-reported", dict(det, key=k, result=res)))
-                    elif r["status"] not in (s, -abs(s)) and not shape.startswith("global"):
+                    elif r["status"] not in (s, -abs(s)) and not shape.startswith("global") and not shape.startswith("http-"):
                         out.append(("ip:rejected-write-reported-with-other-status", dict(det, key=k, got=r["status"])))
                     if k in notified:
                         out.append(("ip:listener-notified-of-rejected-write", dict(det, key=k)))
@@ -183,9 +190,10 @@ def case_ip_read(p):
         for statuses, shape, malformed, dup, gstatus in p["replies"]:
             n += 1
             reply["code"], reply["body"] = build_read_reply(ids, statuses, shape, malformed, dup, gstatus)
-            det = {"transport": "ip", "ids": ids, "statuses": statuses, "shape": shape, "malformed": malformed, "dup": dup, "global": gstatus, "wire": p.get("wire")}
+            det = {"transport": "ip", "ids": ids, "statuses": statuses, "shape": shape, "malformed": malformed, "dup": dup, "global": gstatus, "wire": p.get("wire"), "container": p.get("container")}
             try:
-                res = rig.run(rig.pairing.get_characteristics(list(ids)))
+                arg = {"generator": lambda: (i for i in ids), "iterator": lambda: iter(list(ids)), "map": lambda: map(tuple, [list(i) for i in ids]), "tuple": lambda: tuple(ids)}.get(p.get("container"), lambda: list(ids))()
+                res = rig.run(rig.pairing.get_characteristics(arg))
             except Exception as e:  # noqa: BLE001
                 out.append((f"ip:read-raises:{type(e).__name__}:malformed={malformed}:shape={shape}", dict(det, err=str(e)[:200])))
                 if not rig.pairing.is_connected:
@@ -257,7 +265,7 @@ def plan(tier):
             continue
         reps = []
         for vec in vectors(len(ids), quick):
-            for shape in ("204", "207-full", "207-failed-only", "200-list"):
+            for shape in ("204", "207-full", "207-failed-only", "200-list") + (("http-400", "http-422", "http-470", "http-404", "http-500", "http-503") if not any(vec) else ()):
                 reps.append((list(vec), shape, "none", False))
             if vec[0] != 0 and not any(vec[1:]):
                 for shape in ("global-no-list", "global-partial-list"):
@@ -297,6 +305,8 @@ def plan(tier):
             if i == 0 or not quick:
                 for wire in ("chunked", "lower", "chunked-2") if quick else ("chunked", "lower", "chunked-2", "upper", "mixed", "lws", "extra-headers", "chunked-lower"):
                     work.append(("ip_read", {"ids": ids, "replies": reps[i : i + 150], "wire": wire}))
+                for cont in ("generator", "iterator", "map", "tuple"):
+                    work.append(("ip_read", {"ids": ids, "replies": reps[i : i + 150], "container": cont}))
                 work.append(("ip_read", {"ids": ids, "replies": reps[i : i + 150], "wire": "chunked-lower", "env": dict(delivery="bytes", frames=[7])}))
                 work.append(("ip_read", {"ids": ids, "replies": reps[i : i + 150], "env": dict(delivery="3/4", frames=[48])}))
     for _mod in ("c13_coap", "c13_ble"):
